@@ -827,6 +827,10 @@ func propTable() map[string]*PropSpec {
 			q = append(q, c)
 			th = append(th, c)
 		}
+		ps := rc("C15_MainLoop/event=0/parked_sync=1", ".", "C15_MainLoop", map[string]int{"event": 0, "parked_sync": 1})
+		ps.RequireReach = []string{"C15.main.forwarded"}
+		q = append(q, ps)
+		th = append(th, ps)
 		t["C15"] = &PropSpec{ID: "C15", Quick: q, Thorough: th,
 			Assumptions: []string{"context model: context.WithCancel / Err / Done modelled by the engine (parent-child cancellation)", "SPI stubs perform a nondeterministic interference action (CancelOlderThan with symbolic argument, Shutdown, or nothing) standing for what the main loop can do while the worker is blocked in the call"},
 			Bounds:      []string{"registry: k operations For/CancelOlderThan/Shutdown with symbolic 64-bit (height, view) arguments (k=3,4 quick; up to 5 thorough); 7 SPI call sites (first-leader proposal, proposal validation for the current and for the next view, elected-leader proposal, NEW_VIEW validation, committee polling, commit callback); main loop: one election trigger / one sync with symbolic position in the channel model, checked at the moment the event is forwarded to the worker"},
@@ -859,7 +863,9 @@ func propTable() map[string]*PropSpec {
 		}
 		// the leader of view 0 alone holds the quorum weight
 		hl := rc("C13_Worker/me=0/events=1/weights=7", ".", "C13_Worker", map[string]int{"me": 0, "events": 1, "weights": 7})
-		q = append(q, hl)
+		hlf := rc("C13_Worker/me=0/events=1/weights=7/commit_fails=1", ".", "C13_Worker", map[string]int{"me": 0, "events": 1, "weights": 7, "commit_fails": 1})
+		q = append(q, hl, hlf)
+		th = append(th, hlf)
 		th = append(th, hl, rc("C13_Worker/me=0/events=2/weights=7", ".", "C13_Worker", map[string]int{"me": 0, "events": 2, "weights": 7}))
 		// the commit callback fails by panicking
 		cp := rc("C13_CommitThenPrepared/me=2/commit_panics=1", ".", "C13_CommitThenPrepared", map[string]int{"me": 2, "commit_panics": 1})
